@@ -1,7 +1,9 @@
 CONSTANTS
-  NMain = 2
+  NSetup = 1
+  NMain = 1
   NTd = 2
   NAborters = 2
+  PostLoopAbortCheck = FALSE
   ResetInAbort = FALSE
 SPECIFICATION Spec
 INVARIANT AtMostOneBody
@@ -10,6 +12,8 @@ INVARIANT NoBodyAfterFinalize
 INVARIANT AbortedWins
 INVARIANT NotAbortedWithoutAbort
 INVARIANT TeardownAllRun
+INVARIANT EnteredMeansTeardown
+INVARIANT SetupFailedNothingRuns
 INVARIANT NoDoubleStart
 PROPERTY ExecReturns
 PROPERTY AbortsReturn
